@@ -217,6 +217,8 @@ func (c *Ctx) dispatchSpec(pkg, name string) *dispatchSpec {
 		}}
 	case pkgExpr + ".toString":
 		return &dispatchSpec{isOp, isStringType}
+	case pkgExpr + ".fromString":
+		return &dispatchSpec{isStringType, isOp}
 	case pkgReduce + ".reducers":
 		// the reducers as a function from the position in the order of trial to the reducer
 		return &dispatchSpec{func(t types.Type) bool {
@@ -294,6 +296,9 @@ func (c *Ctx) readDispatchFn(pkg, name string) *Table {
 		}
 		if s, isStr := constStringVal(val); isStr && s == "" && len(p.Ret.Results) == 1 {
 			continue // a name table without an entry yields the empty string, as a map lookup does
+		}
+		if k, isK := val.(*ssa.Const); isK && len(p.Ret.Results) == 1 && c.constName(k) == "expr.Undefined" {
+			continue // an operator table without an entry yields the zero operator, as a map lookup does
 		}
 		var key ssa.Value
 		nEq := 0
